@@ -6,7 +6,7 @@ on that slice alone.
 import numpy as np
 
 from pbv import gen, mm
-from pbv.core import Borderline, Violation, require, require_close, subcheck
+from pbv.core import Borderline, Violation, close, require, require_close, subcheck
 
 SUBCHECKS = []
 RULE = (
@@ -15,7 +15,10 @@ RULE = (
     'complex Gaussian, vMF, complex Watson, cACG, complex Bingham; fit / '
     'predict of cACGMM, cWMM, cBMM, GMM (3 types), vMFMM with per-slice '
     'weights and every option; singleton-leading-axis initial affiliation '
-    'versus its explicit repetition. Non-trivial: at least 2 slices in total. '
+    'versus its explicit repetition; distribution objects constructed from '
+    'stacked parameters of very different scale per slice (repeated Bingham '
+    'eigenvalues next to strongly concentrated slices, covariances 1e-6..1e6) '
+    'versus the single models. Non-trivial: at least 2 slices in total. '
     'Distinct = distinct recorded choice sequence.'
 )
 
@@ -116,6 +119,111 @@ def distributions(d, ctx):
                       rtol=1e-6 if which == 'bingham' else 1e-9, atol=1e-9,
                       what=f'idx={idx}')
     ctx.nontrivial(int(np.prod(lead)) >= 2)
+
+
+@subcheck(SUBCHECKS, 'constructed_models', quick=500, thorough=8000)
+def constructed_models(d, ctx):
+    """distribution objects built directly from a stack of parameters (no
+    trainer, no iterative solver): log_pdf / log_norm of the stack == those of
+    the individual models.  The slices differ in scale on purpose: repeated or
+    nearly repeated Bingham eigenvalues next to strongly concentrated slices,
+    cACG / Gaussian covariances of very different magnitude, concentrations
+    from 1e-6 to 500 side by side."""
+    import pb_bss.distribution as dist
+    from pb_bss.distribution.complex_bingham import ComplexBingham
+    which = d.choice(['bingham', 'bingham', 'cacg', 'watson', 'vmf', 'ccsg', 'gaussian'])
+    lead = draw_lead(d, max_total=8)
+    D = d.int(2, 5)
+    N = d.int(1, 6)
+    rng = d.rng()
+    n = int(np.prod(lead))
+    ctx.describe(which=which, lead=lead, D=D, N=N)
+    ctx.label(which, f'nlead={len(lead)}')
+
+    def per_slice(shape_tail, fn):
+        return np.stack([fn(i) for i in range(n)]).reshape(*lead, *shape_tail)
+
+    if which == 'bingham':
+        def eigs(i):
+            mag = 10.0 ** rng.uniform(-1, 5)
+            lam = -np.sort(rng.uniform(0, 1, size=D))[::-1] * mag
+            kind = rng.integers(0, 4)
+            if kind == 0 and D >= 2:
+                lam[1] = lam[0]                       # exact duplicate
+            elif kind == 1 and D >= 3:
+                lam[2] = lam[1] * (1 + 1e-12)         # duplicate up to rounding
+            lam = lam - lam.max()
+            return rng.permutation(lam)
+        lam = per_slice((D,), eigs)
+        V = per_slice((D, D), lambda i: gen.haar_unitary(rng, D))
+        y = gen.unit(gen.cnormal(rng, (*lead, N, D)))
+        make = lambda idx: ComplexBingham(V[idx], lam[idx])          # noqa
+        full = ComplexBingham(V, lam)
+        fields = {'log_pdf': lambda m, yy: m.log_pdf(yy), 'log_norm': lambda m, yy: m.log_norm()}
+    elif which == 'cacg':
+        cov = per_slice((D, D), lambda i: gen.hpd(rng, D, 10 ** rng.uniform(0, 4), 1.0, ())
+                        * 10.0 ** rng.uniform(-6, 6))
+        y = gen.cnormal(rng, (*lead, N, D))
+        norm = d.choice(['eigenvalue', 'trace', False])
+        floor = d.choice([1e-10, 1e-3, 0.1])
+        build = lambda c: dist.ComplexAngularCentralGaussian.from_covariance(   # noqa
+            c, covariance_norm=norm, eigenvalue_floor=floor)
+        make = lambda idx: build(cov[idx])       # noqa
+        full = build(cov)
+        fields = {'log_pdf': lambda m, yy: m.log_pdf(yy),
+                  'eigenvalues': lambda m, yy: m.covariance_eigenvalues,
+                  'log_determinant': lambda m, yy: m.log_determinant}
+    elif which == 'watson':
+        mode = gen.unit(gen.cnormal(rng, (*lead, D)))
+        conc = per_slice((), lambda i: 10.0 ** rng.uniform(-6, np.log10(500)))
+        y = gen.unit(gen.cnormal(rng, (*lead, N, D)))
+        make = lambda idx: dist.ComplexWatson(mode=mode[idx], concentration=np.asarray(conc[idx]))  # noqa
+        full = dist.ComplexWatson(mode=mode, concentration=conc)
+        fields = {'log_pdf': lambda m, yy: m.log_pdf(yy), 'log_norm': lambda m, yy: m.log_norm()}
+    elif which == 'vmf':
+        mean = gen.unit(rng.normal(size=(*lead, D)))
+        conc = per_slice((), lambda i: 10.0 ** rng.uniform(-6, np.log10(500)))
+        y = rng.normal(size=(*lead, N, D))
+        make = lambda idx: dist.VonMisesFisher(mean=mean[idx], concentration=np.asarray(conc[idx]))  # noqa
+        full = dist.VonMisesFisher(mean=mean, concentration=conc)
+        fields = {'log_pdf': lambda m, yy: m.log_pdf(yy), 'log_norm': lambda m, yy: m.log_norm()}
+    elif which == 'ccsg':
+        cov = per_slice((D, D), lambda i: gen.hpd(rng, D, 10 ** rng.uniform(0, 4), 1.0, ())
+                        * 10.0 ** rng.uniform(-6, 6))
+        y = gen.cnormal(rng, (*lead, N, D))
+        make = lambda idx: dist.ComplexCircularSymmetricGaussian(covariance=cov[idx])   # noqa
+        full = dist.ComplexCircularSymmetricGaussian(covariance=cov)
+        fields = {'log_pdf': lambda m, yy: m.log_pdf(yy)}
+    else:
+        ct = d.choice(['full', 'diagonal', 'spherical'])
+        mean = rng.normal(size=(*lead, D)) * 3
+        if ct == 'full':
+            cov = per_slice((D, D), lambda i: gen.spd(rng, D, 10 ** rng.uniform(0, 4), 1.0, ())
+                            * 10.0 ** rng.uniform(-6, 6))
+            cls = dist.Gaussian
+        elif ct == 'diagonal':
+            cov = per_slice((D,), lambda i: 10.0 ** rng.uniform(-6, 6, size=D))
+            cls = dist.DiagonalGaussian
+        else:
+            cov = per_slice((), lambda i: 10.0 ** rng.uniform(-6, 6))
+            cls = dist.SphericalGaussian
+        y = rng.normal(size=(*lead, N, D)) * 3
+        make = lambda idx: cls(mean=mean[idx], covariance=np.asarray(cov[idx]))   # noqa
+        full = cls(mean=mean, covariance=cov)
+        fields = {'log_pdf': lambda m, yy: m.log_pdf(yy)}
+        ctx.label(ct)
+    for name, fn in fields.items():
+        got = np.asarray(ctx.lib(fn, full, y))
+        for idx in np.ndindex(*lead):
+            one = np.asarray(ctx.lib(fn, make(idx), y[idx]))
+            a = got[idx]
+            if not (np.all(np.isfinite(a)) and np.all(np.isfinite(one))):
+                raise Borderline('non-finite value (C07 / C01 judge those)')
+            ok, msg = close(a, one, rtol=1e-9, atol=1e-9)
+            if not ok:
+                raise Violation('stacked-model-differs-from-single-model',
+                                f'{which}.{name} index {idx}: {msg}', which=which, field=name)
+    ctx.nontrivial(n >= 2)
 
 
 def _mixture(d, ctx, kind, **kw):
